@@ -140,7 +140,7 @@ def describe(prog):
 def classify(chk, mode, rows, reported):
     for kind, idx, prog, o, ok in rows:
         feats = G.features(prog)
-        collision = kind not in ("fresh", "all-only", "ni-A", "corpus")
+        collision = kind not in ("fresh", "all-only", "ni-A", "probes", "corpus")
         nontriv = "fill" in feats and ("comp-nested" in feats or "comp-in-loop" in feats) and collision
         chk.count(json.dumps(prog, sort_keys=True), nontriv, kind="%s/%s" % (mode, kind.split(":")[0].split("/")[0]),
                   sample={"mode": mode, "collision": kind, "page": G.d_tpls(prog["page"]),
@@ -229,6 +229,10 @@ def run(tier, seed):
         # the run-A program of each non-interference pair is also a correspondence case (fills that read inner data,
         # templates that read an unpassed page variable and forloop)
         cases += [("ni-A", i, U.ni_variant(p if mode == "isolated" else set_only(p), "A")) for i, p in bases]
+        if mode == "django":
+            # the same probes without `only` everywhere: positive visibility (templates see the page variable and the
+            # enclosing loop, fill content sees the inner component's data)
+            cases += [("probes", i, U.ni_variant(p, "A")) for i, p in bases]
         rows = evaluate(chk, cases, mode[:3])
         classify(chk, mode, rows, reported)
         nni += noninterference(chk, mode, bases, reported)
